@@ -108,17 +108,19 @@ def o_middleware(inp):
     lib = Library([entry])
     out = libgen.maybe_preuse(SplitNameParts(allow_inplace_modification=inp["inplace"]), inp["fields"], same=lib).transform(lib)
     name_fields = ("author", "editor", "translator")
-    invalid_in = None
-    for k, v in inp["fields"]:
+    invalid_in = None  # position of the first name field holding an invalid name
+    for pos, (k, v) in enumerate(inp["fields"]):
         if k in name_fields:
             for n in v:
                 try:
                     refnames.tokenize_name(n)
                 except refnames.Invalid:
-                    invalid_in = k if invalid_in is None else invalid_in
-    cls = ["mw-invalid" if invalid_in else "mw-valid"]
+                    invalid_in = pos if invalid_in is None else invalid_in
+    cls = ["mw-invalid" if invalid_in is not None else "mw-valid"]
+    if len({k for k, _ in inp["fields"]}) < len(inp["fields"]):
+        cls.append("mw-repeated-field-key")
     b = out.blocks[0] if len(out.blocks) == 1 else None
-    if invalid_in:
+    if invalid_in is not None:
         if not isinstance(b, MiddlewareErrorBlock):
             return (("mw:no-error-block", repr(b), "MiddlewareErrorBlock"), True, cls)
         if not isinstance(b.error, InvalidNameError):
@@ -128,8 +130,8 @@ def o_middleware(inp):
             return (("mw:inner-entry", repr(inner), "the original entry"), True, cls)
         if [f.key for f in inner.fields] != [k for k, _ in inp["fields"]] + ["title"]:
             return (("mw:inner-fields", repr(inner.fields), "same field keys"), True, cls)
-        got = inner.fields_dict[invalid_in].value
-        exp = dict((k, v) for k, v in inp["fields"])[invalid_in]
+        got = inner.fields[invalid_in].value
+        exp = inp["fields"][invalid_in][1]
         if got != exp:
             return (("mw:offending-field-altered", repr(got), repr(exp)), True, cls)
         if b.start_line != 3 or b.raw != "@article{k,...}":
@@ -146,23 +148,25 @@ def o_middleware(inp):
             return (("mw:other-field", repr(f.value), repr(v)), True, cls)
     # history independence at the middleware level: the NameParts handed out belong to that library; altering them
     # must not show up when the same names are split again (another entry, another library, another instance)
-    expected_again = {}
+    expected_again = []
     for f, (k, v) in zip(b.fields, inp["fields"]):
         if k in name_fields:
-            expected_again[k] = [(tuple(x.first), tuple(x.von), tuple(x.last), tuple(x.jr)) for x in f.value]
+            expected_again.append([(tuple(x.first), tuple(x.von), tuple(x.last), tuple(x.jr)) for x in f.value])
             for x in f.value:
                 x.first.append("<altered>")
                 x.last.insert(0, "<altered>")
+        else:
+            expected_again.append(None)
     fields2 = [Field(k, list(v), i) for i, (k, v) in enumerate(inp["fields"])]
     lib2 = Library([Entry("article", "k2", fields2, start_line=9, raw="@article{k2,...}")])
     out2 = SplitNameParts(allow_inplace_modification=True).transform(lib2)
     b2 = out2.blocks[0]
     if isinstance(b2, Entry):
-        for f in b2.fields:
-            if f.key in expected_again:
+        for f, exp_parts in zip(b2.fields, expected_again):
+            if exp_parts is not None:
                 got = [(tuple(x.first), tuple(x.von), tuple(x.last), tuple(x.jr)) for x in f.value]
-                if got != expected_again[f.key]:
-                    return (("mw:result-shared-between-libraries", repr(got), repr(expected_again[f.key])), True, cls)
+                if got != exp_parts:
+                    return (("mw:result-shared-between-libraries", repr(got), repr(exp_parts)), True, cls)
     return (None, len(inp["fields"]) > 0, cls)
 
 
@@ -235,7 +239,10 @@ def w_random(acc, n, seed):
     keys = st.sampled_from(["author", "editor", "translator", "note"])
     mw = st.fixed_dictionaries(
         {
-            "fields": st.lists(st.tuples(keys, st.lists(nm, min_size=0, max_size=4)), min_size=1, max_size=3, unique_by=lambda kv: kv[0]).map(lambda l: [list(x) for x in l]),
+            # an entry built through the model (or the inner entry of a duplicate-field block) may repeat a name field key:
+            # every occurrence is split on its own
+            "fields": st.one_of(st.lists(st.tuples(keys, st.lists(nm, min_size=0, max_size=4)), min_size=1, max_size=3, unique_by=lambda kv: kv[0]),
+                                st.lists(st.tuples(keys, st.lists(nm, min_size=0, max_size=3)), min_size=2, max_size=4)).map(lambda l: [list(x) for x in l]),
             "inplace": st.booleans(),
         }
     )
